@@ -275,3 +275,19 @@ def r09_11(ctx):
         ok = ok and not [g for g in sc.guards(st) if g not in sc.guards(c)]
     ctx.check(ok, "the offset starts at 0 and advances by the size of each primitive after it was served", detail="entries of a multi-entry symbol handed to its successor (values shifted)",
               expected="offset = 0; per primitive: callback(...); offset += p.nnz()", found="; ".join(ast.unparse(d.stmt) for d in inits + upd + loopdef), fi=f, sample={"offset": [ast.unparse(d.stmt) for d in inits + upd]})
+
+
+@rule("R09.12", min_instances=1, desc="the starting point follows a parameter change: guesses are stored in Opti as numbers, so a value written through to a live transcription must be followed by a re-application of the guess table")
+def r09_12(ctx):
+    """`set_initial(x, a*ocp.t)` (a a parameter), or any time-dependent guess with a horizon given by a parameter: the
+    guess table is evaluated numerically (opti.debug.value(expr, opti.initial())) whenever it is applied; after
+    Stage.set_value pushes a new parameter value into the live Opti, only a re-application can refresh those numbers."""
+    P = ctx.prog
+    f = P.own_method("Stage", "set_value")
+    fns = [f] + list(__import__("rkverif.model", fromlist=["nested_functions"]).nested_functions(f).values())
+    wt = [(g, c) for g in fns for c in walk_no_nested(g.node) if is_call_to(c, "set_value", "self._method")]
+    re = [(g, c) for g in fns for c in walk_no_nested(g.node) if is_call_to(c, "apply_initial", "self._method") or is_call_to(c, "set_initial", "self._method")]
+    ctx.check(len(wt) >= 1, "Stage.set_value writes the value through to a live transcription", detail="write-through", expected="self._method.set_value(...)", found=str(len(wt)), fi=f)
+    ctx.check(bool(re), "Stage.set_value", detail="guesses that depend on the parameter (or on a parametric horizon) keep the numbers computed with the old value: the starting point differs from the same OCP written with the new value",
+              expected="after the write-through: self._method.apply_initial(self._augmented, self.master._method, self._initial)", found="no re-application of the guess table", fi=f,
+              sample={"write_through": [ast.unparse(c)[:80] for _, c in wt]})
